@@ -153,9 +153,11 @@ theorem iterAfter_bytes_suffix (k : Nat) : ∀ it : DecIter,
 
 /-- the events that make `DecoderReader::read` reset the decoder: every error of the source other
 than `WouldBlock`; `Interrupted` is such an error except over `std::io::Read`, where `read_exact`
-retries -/
+retries; a mid-stream end of input (`Ev.eof`) is one for every source kind (kind `Eof`, resp.
+`Other` over embedded-hal) -/
 def resets (kind : SrcKind) : Ev → Bool
   | .other => true
+  | .eof => true
   | .interrupted => kind != .io
   | _ => false
 
@@ -312,6 +314,18 @@ theorem readLoop_pos (kind : SrcKind) (evs : List Ev) : ∀ (done : List Ev) (d 
       unfold Rdr.readLoop
       obtain ⟨a, b, c⟩ := pinv_onIoErr evs .other (done ++ [Ev.other]) (by intro hc; cases hc)
       exact ⟨[Ev.other], by rw [b]; rfl, a, fun m hm => absurd hm (c m)⟩
+    | eof =>
+      unfold Rdr.readLoop
+      cases kind with
+      | io =>
+        obtain ⟨a, b, c⟩ := pinv_onIoErr evs .eof (done ++ [Ev.eof]) (by intro hc; cases hc)
+        exact ⟨[Ev.eof], by rw [b]; rfl, a, fun m hm => absurd hm (c m)⟩
+      | mem =>
+        obtain ⟨a, b, c⟩ := pinv_onIoErr evs .eof (done ++ [Ev.eof]) (by intro hc; cases hc)
+        exact ⟨[Ev.eof], by rw [b]; rfl, a, fun m hm => absurd hm (c m)⟩
+      | eh =>
+        obtain ⟨a, b, c⟩ := pinv_onIoErr evs .other (done ++ [Ev.eof]) (by intro hc; cases hc)
+        exact ⟨[Ev.eof], by rw [b]; rfl, a, fun m hm => absurd hm (c m)⟩
 
 theorem readLoop_kind (kind : SrcKind) (evs : List Ev) : ∀ d : Dec,
     (Rdr.readLoop kind d evs).1.kind = kind := by
@@ -336,6 +350,12 @@ theorem readLoop_kind (kind : SrcKind) (evs : List Ev) : ∀ d : Dec,
       | mem => cases h : Rdr.onIoErr .mem d evs .other; simp [Rdr.onIoErr] at h; rw [← h.1]
       | eh => cases h : Rdr.onIoErr .eh d evs .other; simp [Rdr.onIoErr] at h; rw [← h.1]
     | other => unfold Rdr.readLoop; rfl
+    | eof =>
+      unfold Rdr.readLoop
+      cases kind with
+      | io => cases h : Rdr.onIoErr .io d evs .eof; simp [Rdr.onIoErr] at h; rw [← h.1]
+      | mem => cases h : Rdr.onIoErr .mem d evs .eof; simp [Rdr.onIoErr] at h; rw [← h.1]
+      | eh => cases h : Rdr.onIoErr .eh d evs .other; simp [Rdr.onIoErr] at h; rw [← h.1]
 
 theorem call_kind (r : Rdr) (cl : Rdr.Call) : (r.call cl).1.kind = r.kind := by
   rw [(Rdr.call_eq_read r cl).1]
@@ -379,9 +399,10 @@ arbitrary faults and any sequence of `read` / `next` / `read_nb` / `next_nb` cal
 `i` returns the payload `m`, let `r` be the reader after that call and `consumed` the events it has
 taken from the source so far.  Then the bytes delivered by the events of `consumed` that come after
 the last event which made the reader reset the decoder (`sinceReset`: an error other than
-`WouldBlock`; `Interrupted` counts unless the source is an `io::Read`) end with exactly `frame m`.
-So a frame is never assembled from bytes on both sides of an I/O error, and never reported before
-its last byte has been read. -/
+`WouldBlock`; `Interrupted` counts unless the source is an `io::Read`; a mid-stream end of input
+`Ev.eof` counts for every source) end with exactly `frame m`.
+So a frame is never assembled from bytes on both sides of an I/O error or of a mid-stream end of
+input, and never reported before its last byte has been read. -/
 theorem sound_reader_pos (kind : SrcKind) (cap : Option Nat) (evs : List Ev) (cs : List Rdr.Call)
     (i : Nat) (m : List UInt8)
     (h : ((Rdr.new kind cap evs).calls cs).2[i]? = some (RItem.ok m)) :
@@ -549,8 +570,8 @@ example : (DecIter.new none ([0xaa] ++ frame [1, 2] ++ [0xbb, 0xcc])).take 3 =
 example : (iterAfter (DecIter.new none ([0xaa] ++ frame [1, 2] ++ [0xbb, 0xcc])) 2).bytes =
     [0xbb, 0xcc] := by decide +kernel
 
-/-- `sinceReset`: over an `io::Read` only `other` resets, over the other sources `interrupted`
-does, too -/
+/-- `sinceReset`: over an `io::Read` only `other` and `eof` reset, over the other sources
+`interrupted` does, too -/
 example : sinceReset .io [.byte 1, .other, .byte 2, .interrupted, .wouldBlock, .byte 3] =
     [.byte 2, .interrupted, .wouldBlock, .byte 3] := by decide
 example : sinceReset .mem [.byte 1, .other, .byte 2, .interrupted, .wouldBlock, .byte 3] =
@@ -573,6 +594,21 @@ example : ((Rdr.new .io none (((frame [1, 2]).take 10).map Ev.byte ++
 example : ((Rdr.new .mem none (((frame [1, 2]).take 10).map Ev.byte ++ [Ev.interrupted] ++
       ((frame [1, 2]).drop 10).map Ev.byte)).calls [.read, .read, .read]).2 =
     [.ioErr .other 10, .ioErr .eof 10, .ioErr .eof 0] := by decide +kernel
+
+/-- a mid-stream end of input inside a frame: the two halves are not glued together (`read`
+reports the 10 pending bytes with the `Eof` error, the second half is noise) -/
+example : ((Rdr.new .io none (((frame [1, 2]).take 10).map Ev.byte ++ [Ev.eof] ++
+      ((frame [1, 2]).drop 10).map Ev.byte)).calls [.read, .next, .next]).2 =
+    [.ioErr .eof 10, .ioErr .eof 10, .none] := by decide +kernel
+
+/-- ... and one between two frames: both are delivered, `sinceReset` of the events consumed up to
+the second delivery is exactly the second frame -/
+example : ((Rdr.new .io none ((frame [1, 2]).map Ev.byte ++ [Ev.eof] ++
+      (frame [3]).map Ev.byte)).calls [.next, .next, .next, .next]).2 =
+    [.ok [1, 2], .none, .ok [3], .none] := by decide +kernel
+
+example : sinceReset .io ((frame [1, 2]).map Ev.byte ++ [Ev.eof] ++ (frame [3]).map Ev.byte) =
+    (frame [3]).map Ev.byte := by decide +kernel
 
 /-- `decode`: the items and the positions at which they are produced -/
 example : decodeAll ([0xaa] ++ frame [1, 2] ++ [0xbb] ++ frame [3]) =
